@@ -560,7 +560,11 @@ class EndpointResponseHandlerGenerator:
             return
 
         # A string response whose declared content types are all text/* carries plain text, not JSON
-        if strategy.return_type == "str" and strategy.response_ir is not None and strategy.response_ir.content:
+        schema = strategy.response_schema
+        is_plain_string = strategy.return_type == "str" or (
+            schema is not None and schema.type == "string" and not schema.enum and not schema.format
+        )
+        if is_plain_string and strategy.response_ir is not None and strategy.response_ir.content:
             media_types = [ct.split(";")[0].strip().lower() for ct in strategy.response_ir.content]
             if all(mt.startswith("text/") for mt in media_types):
                 writer.write_line("return response.text")
